@@ -120,6 +120,8 @@ def uniform_permutation(t, names):
     len(names)>]; a list copy shuffled in place is handled by the caller (needs events).
     Returns (True, draw) / (False, reason) / ('unknown', reason) / ('coerce', draw)."""
     ln = ("fn", "len", (names,))
+    if t[0] == "fn" and t[1] == "enumerate" and t[2]:
+        return uniform_permutation(t[2][0], names)        # numbering the positions does not change the order
     if is_draw(t):
         prim, args, kw = t[2], t[3], dict(t[4])
         if prim == "random.sample" and len(args) >= 1:
